@@ -112,6 +112,8 @@ pub struct RunOpts<'a> {
 }
 
 pub fn run(b: &Built, argv: &[OsString], o: &RunOpts) -> Obs {
+    // parsing *and* rendering of the outcome run under catch_unwind: a panic of the code under test
+    // is an observed outcome, never a failure of the harness
     let r = catch_unwind(AssertUnwindSafe(|| {
         #[allow(unused_mut)]
         let mut args = Args::from(argv);
@@ -122,38 +124,40 @@ pub fn run(b: &Built, argv: &[OsString], o: &RunOpts) -> Obs {
         if let Some(c) = o.comp {
             args = args.set_comp(c);
         }
-        b.parser.run_inner(args)
+        match b.parser.run_inner(args) {
+            Ok(v) => Obs {
+                class: "ok",
+                value: Some(v.to_json()),
+                text: String::new(),
+                full: false,
+            },
+            Err(ParseFailure::Stdout(doc, full)) => Obs {
+                class: "stdout",
+                value: None,
+                text: doc.monochrome(full),
+                full,
+            },
+            Err(ParseFailure::Completion(sx)) => Obs {
+                class: "completion",
+                value: None,
+                text: sx,
+                full: false,
+            },
+            Err(ParseFailure::Stderr(doc)) => Obs {
+                class: "stderr",
+                value: None,
+                text: doc.monochrome(true),
+                full: true,
+            },
+        }
     }));
     match r {
+        Ok(o) => o,
         Err(e) => Obs {
             class: "panic",
             value: None,
             text: panic_text(&e),
             full: false,
-        },
-        Ok(Ok(v)) => Obs {
-            class: "ok",
-            value: Some(v.to_json()),
-            text: String::new(),
-            full: false,
-        },
-        Ok(Err(ParseFailure::Stdout(doc, full))) => Obs {
-            class: "stdout",
-            value: None,
-            text: doc.monochrome(full),
-            full,
-        },
-        Ok(Err(ParseFailure::Completion(sx))) => Obs {
-            class: "completion",
-            value: None,
-            text: sx,
-            full: false,
-        },
-        Ok(Err(ParseFailure::Stderr(doc))) => Obs {
-            class: "stderr",
-            value: None,
-            text: doc.monochrome(true),
-            full: true,
         },
     }
 }
